@@ -101,6 +101,12 @@ def gen_cases(rng, tier):
                       # a later step of the same flow that edits the rows in place (what was dumped is what entered the dumper),
                       # and the dump read back through the documented env:// form of the source
                       'mutate_after': rng.chance(0.3), 'via_env': rng.chance(0.25)})
+    # systematically: strings with blanks, tabs and line breaks at their ends, through every way of writing and reading back
+    pad_rows = [{'alpha': ' pad ', 'beta': '\ttab'}, {'alpha': 'x\n', 'beta': '   '}, {'alpha': 'plain', 'beta': None}]
+    for fmt in ('csv', 'json'):
+        for z, env in ((True, False), (False, False), (False, True)):
+            cases.append({'kind': 'roundtrip', 'pkg': [{'name': 'res0', 'fields': [['alpha', 'string'], ['beta', 'string']], 'rows': rows_enc(pad_rows)}],
+                          'format': fmt, 'zip': z, 'hashpath': False, 'tfp': False, 'tfp_fields': [], 'fprops': [], 'mutate_after': False, 'via_env': env})
     # the CSV layer alone: the model of Python's csv against the csv module, on tables and on arbitrary texts
     alpha = ['a', 'b', ',', '"', '\r', '\n', ' ', 'é']
     for i in range({'quick': 60, 'thorough': 600, 'search': 100}[tier]):
